@@ -23,7 +23,9 @@ func init() {
 			"(R-ERRCHK) every call in Eval/TryEval that yields an error is followed by a nil test of that error before the value result is used, and the non-nil edge returns that error: a dropped check would continue with a value where the semantics demands the error. " +
 			"(R-LEAFORDER) the leaf parsers are installed with parseConst before parseVariable before parseUnknownVariable and buildLeafNode is a first-match loop in index order: constants shadow variables shadow undefined variables. " +
 			"(R-KIND) every writer of node.flag / node.value keeps the invariant 'kind variable/operator/fastOperator ⇒ value is a string, cond ⇒ keyword, event ⇒ LoopEventData; a fast operator has exactly two leaf children; or-ing flag bits never touches the kind bits'; (R-KINDSWITCH) every switch over a node kind in Eval, TryEval, calAndSetNodes, calAndSetStackSize covers all kinds that can reach it; (R-BITS, R-PAIR, R-PAIRBOOL, R-SCJUMP) flag bit groups are disjoint and the four places that pair and/or with a polarity agree, for every alias. " +
-			"NOT decided: value/stack/jump semantics of the loop, operand order on the stack, correctness of scIdx/osTop (run-time table values); operator algebra is C17-C19.",
+			"(R-STEPRES) per arm of the main loop the pushed value is exactly the node literal / result #0 of the fetch of that very node / result #0 of the node's own operator applied in that arm, cond and event arms push nothing, the value lands in os[osTop+1] and osTop advances by one, non-error returns yield the pushed value or os[0]; (R-STEPARGS) the operator arm pops exactly childCnt and hands the operator either the two-slot buffer filled from os[osTop-childCnt+1], os[osTop-childCnt+2] (only under childCnt == 2) or a fresh childCnt-long copy of os[osTop-childCnt+1:]. " +
+			"(R-STACKREC) calAndSetStackSize: every arm builds on the same predecessor (i-1, or the `if` node when node i-1 is `fi`) with the evaluator's per-kind stack effect as delta; (R-SCFLAGS) the stores of calAndSetShortCircuit are gated only by the parent and the position, never by the node's own kind or value; (R-SCCLIMB) an ancestor's target is taken over only under (ancestor.flag & flag) == flag, loops run in the direction that makes read targets final; (R-FASTLAYOUT) every site agrees that a fast operator is followed by two inlined operands; (R-KWTYPE) marker comparisons use the stored dynamic type. " +
+			"NOT decided: the contents of scIdx for every tree shape (how far the climbing loop goes), hence value equality with the reference semantics for all programs; operator algebra is C17-C19.",
 		Run:       runC01,
 		Witnesses: c01Witnesses,
 	})
@@ -38,6 +40,12 @@ func runC01(w *World, r *Report) {
 	ruleBits(w, r)
 	rulePair(w, r)
 	rulePairBool(w, r)
+	ruleStepArgs(w, r, ruleStepRes(w, r, "(*Expr).Eval"))
+	ruleStackRec(w, r)
+	ruleScFlags(w, r)
+	ruleScClimb(w, r)
+	ruleFastLayout(w, r)
+	ruleKwType(w, r)
 	if fn := w.Fn("(*Expr).Eval"); fn != nil {
 		if l, _ := recoverEvalLoop(w, fn); l != nil {
 			ruleScJump(w, r, l)
@@ -830,7 +838,7 @@ func isKindExpr(w *World, e ast.Expr, k nodeKinds) bool {
 	return false
 }
 
-var c01Witnesses = []Witness{
+var c01Witnesses = append(append(stepWitnessesEval, tableWitnesses...), []Witness{
 	{Name: "fetcher-error-wrapped", Rule: "R-ERRID", Edits: []Edit{
 		{File: "engine.go", Old: "		case variable:\n			res, err = ctx.Get(curt.varKey, curt.value.(string))\n			if err != nil {\n				return\n			}\n		case constant:\n			res = curt.value\n		case operator:\n			cCnt := int16(curt.childCnt)\n			osTop = osTop - cCnt\n			if cCnt == 2 {\n				param2[0], param2[1] = os[osTop+1], os[osTop+2]\n				params = param2[:]", New: "		case variable:\n			res, err = ctx.Get(curt.varKey, curt.value.(string))\n			if err != nil {\n				return nil, fmt.Errorf(\"variable %v: %v\", curt.value, err)\n			}\n		case constant:\n			res = curt.value\n		case operator:\n			cCnt := int16(curt.childCnt)\n			osTop = osTop - cCnt\n			if cCnt == 2 {\n				param2[0], param2[1] = os[osTop+1], os[osTop+2]\n				params = param2[:]"},
 		{File: "engine.go", Old: "import (\n	\"context\"\n	\"errors\"\n)", New: "import (\n	\"context\"\n	\"errors\"\n	\"fmt\"\n)"}}},
@@ -854,4 +862,4 @@ var c01Witnesses = []Witness{
 		{File: "engine.go", Old: "	cond         = uint8(0b00000101)", New: "	cond         = uint8(0b00000101)\n	lambda       = uint8(0b00000110)"}}},
 	{Name: "benign-errchk-inverted-test", Benign: true, Edits: []Edit{
 		{File: "engine.go", Old: "			res, err = executeOperatorProxy(ctx, curt, param)\n			if err != nil {\n				return\n			}", New: "			res, err = executeOperatorProxy(ctx, curt, param)\n			if nil == err {\n				_ = res\n			} else {\n				return\n			}"}}},
-}
+}...)
